@@ -114,13 +114,25 @@ def c01_is_metric_filter(m, f):
     return any(c.split(".")[-1] in names for c in c01.filter_cols(f))
 
 
-def sweep(ck, rng, n, stats):
+def sweep(ck, rng, n, stats, directed=False):
     cases, metas = [], []
     for _ in range(n):
         m = S.gen_model(rng)
-        table = S.gen_table(rng, rng.choice([5, 13]))
+        table = S.gen_table(rng, rng.choice([5, 13]) if not directed else 30)
         q = S.gen_query(rng, m)
         q["ungrouped"] = False
+        if directed:
+            # several sort keys with mixed directions over dimensions with ties, with and without LIMIT
+            cats = [f"{m['name']}.{d['name']}" for d in m["dims"] if d["type"] != "time"]
+            if len(cats) < 2:
+                continue
+            keys = rng.sample(cats, 2)
+            q["dims"] = list(dict.fromkeys(keys + q["dims"]))
+            q["order_by"] = [[keys[0], True], [keys[1], False]] if rng.random() < 0.7 else [[keys[0], rng.random() < 0.5], [keys[1], rng.random() < 0.5]]
+            if q["metrics"] and rng.random() < 0.4:
+                q["order_by"].append([q["metrics"][0], rng.random() < 0.5])
+            q["limit"], q["offset"] = rng.choice([None, 2, 3, 5]), None
+            q["aliases"] = []
         if rng.random() < 0.4:
             # a parenthesised OR group AND-ed with other predicates, on data that tells the precedences apart
             mn0 = m["name"]
@@ -270,10 +282,13 @@ def run(ck: Check):
     stats = Counter()
     thorough = ck.tier == "thorough"
     disagree = sweep(ck, ck.rng, 500 if thorough else 60, stats)
+    disagree += sweep(ck, ck.rng, 60 if thorough else 8, stats, directed=True)     # several sort keys, mixed directions, ties
     if disagree == 0:
         ck.obligation("correspondence C05: tuple handed to SQLGenerator.generate vs extractSimple", True, f"{stats['extraction_equal']} statements")
     if disagree or ck.broken:
         sweep(ck, ck.rng, 200, stats)
+        if not ck.failing:
+            sweep(ck, ck.rng, 80, stats, directed=True)
     fixed_battery(ck, stats)
     joined_star_battery(ck, stats)
     ck.coverage.update({
